@@ -11,11 +11,100 @@
         a dead one succeeded), is_alive wrong, final alive set ≠ initial + created − requested,
         lazy log not an order-preserving interleaving with every tag exactly once.
 -/
-import Driver.WorldDom
+import SpecsModel.Model.EWorld
 import SpecsModel.Conc.Model
 import Std.Data.HashSet
-namespace SpecsModel.Driver
+namespace SpecsModel.Driver.ConcD
 open SpecsModel SpecsModel.Conc
+
+/-! ### Line-protocol helpers (own copies: this domain depends on Model/Entity-level files only) -/
+
+def splitArrow (line : String) : String × String :=
+  match line.splitOn " => " with
+  | [a] => (a, "")
+  | a :: rest => (a, " => ".intercalate rest)
+  | [] => ("", "")
+
+def toks (s : String) : List String :=
+  (s.trimAscii.toString.splitOn " ").filter (· ≠ "")
+
+def parseInt? (s : String) : Option Int :=
+  if s.startsWith "-" then (s.drop 1).toString.toNat?.map (fun n => - (n : Int))
+  else s.toNat?.map (fun n => (n : Int))
+
+/-- `i:g` -/
+def parseEntity? (s : String) : Option Entity :=
+  match s.splitOn ":" with
+  | [i, g] => do
+    let i ← i.toNat?
+    let g ← parseInt? g
+    pure ⟨i, g⟩
+  | _ => none
+
+def parseSlot? (s : String) : Option Nat :=
+  if s.startsWith "@" then (s.drop 1).toString.toNat? else none
+
+def showEntity (e : Entity) : String := s!"{e.id}:{e.gen}"
+
+def mapM? {α β} (f : α → Option β) : List α → Option (List β)
+  | [] => some []
+  | x :: xs => do
+    let y ← f x
+    let ys ← mapM? f xs
+    pure (y :: ys)
+
+/-- Entity ops of the initial history (DESIGN Appendix B, entity part). -/
+def parseEOp (ts : List String) : Option EOp :=
+  match ts with
+  | ["create", "now"] => some (.createNow false)
+  | ["create", "now_dropped"] => some (.createNow true)
+  | ["create", "atomic"] => some (.createAtomic false)
+  | ["create", "atomic_dropped"] => some (.createAtomic true)
+  | ["create_iter", "now", n] => n.toNat?.map .createIterNow
+  | ["create_iter", "atomic", n] => n.toNat?.map .createIterAtomic
+  | ["del_now", h] => (parseSlot? h).map .delNow
+  | "del_batch" :: hs => (mapM? parseSlot? hs).map .delBatch
+  | ["del_atomic", h] => (parseSlot? h).map .delAtomic
+  | ["del_all"] => some .delAll
+  | ["maintain"] => some .merge
+  | ["alive", h] => (parseSlot? h).map .alive
+  | ["walive", h] => (parseSlot? h).map .walive
+  | ["ejoin"] => some .ejoin
+  | _ => none
+
+def parseERes (op : EOp) (ts : List String) : Option ERes :=
+  match op, ts with
+  | _, ["panic"] => some (.panic "impl")
+  | _, ["skip"] => some .skip
+  | .createNow _, ["e", e] | .createAtomic _, ["e", e] => (parseEntity? e).map .ent
+  | .createIterNow _, "es" :: es | .createIterAtomic _, "es" :: es | .ejoin, "es" :: es =>
+    (mapM? parseEntity? es).map .ents
+  | .delNow _, ["ok"] | .delAtomic _, ["ok"] | .delBatch _, ["ok"] => some (.kill .ok)
+  | .delNow _, ["err"] | .delAtomic _, ["err"] => some (.kill (.err 0))
+  | .delBatch _, ["err", p] => p.toNat?.map (fun p => .kill (.err p))
+  | .delAll, ["ok"] | .merge, ["ok"] => some .unit
+  | .alive _, ["t"] | .walive _, ["t"] => some (.bool true)
+  | .alive _, ["f"] | .walive _, ["f"] => some (.bool false)
+  | _, _ => none
+
+def showERes : ERes → String
+  | .ent e => "e " ++ showEntity e
+  | .ents es => " ".intercalate ("es" :: es.map showEntity)
+  | .kill .ok => "ok"
+  | .kill (.err p) => s!"err {p}"
+  | .bool true => "t"
+  | .bool false => "f"
+  | .unit => "ok"
+  | .skip => "skip"
+  | .panic why => "panic(" ++ why ++ ")"
+
+/-- Equality of results as far as the protocol shows them (del_now/del_atomic do not report a
+    position). -/
+def eresAgree (op : EOp) (impl model : ERes) : Bool :=
+  match op, impl, model with
+  | .delNow _, .kill (.err _), .kill (.err _) => true
+  | .delAtomic _, .kill (.err _), .kill (.err _) => true
+  | _, a, b => a == b
 
 structure ConcCase where
   id : String := ""
@@ -450,4 +539,9 @@ def runConc (h : IO.FS.Stream) : IO Unit := do
   let st ← concLoop h {} none 0
   IO.println s!"STATS cases={st.cases} lines={st.lines} diffs={st.diffs} mons={st.mons} distinct={st.distinct.size} distinct_nontrivial={st.distinctNontrivial} ticks={st.ticks} events={st.events} cas_failures={st.casFailures} cases_with_cas_failure={st.casesWithCasFailure} pops={st.pops} switches_in_call={st.switches} stress_ok={st.stressOk} hangs={st.hangs}"
 
+end SpecsModel.Driver.ConcD
+
+namespace SpecsModel.Driver
+/-- Entry point of the `conc` domain (reads the rest of stdin after the `domain conc` line). -/
+def runConc (h : IO.FS.Stream) : IO Unit := ConcD.runConc h
 end SpecsModel.Driver
